@@ -149,6 +149,20 @@ class ContractMixin:
                         terms.append(self.eval_clause(lam.body, s, frame=fr))
                 return k(mk_bool(z3.And(*terms) if terms else z3.BoolVal(True)), s)
             return self.ev(e.args[0], st, with_cls)
+        if name == "unchanged":
+            terms = []
+            for a in e.args:
+                key = a.value
+                for hk, sort in self.heap_keys_for(key):
+                    cur = st.harr(hk, sort)
+                    prev = st.heap_override
+                    st.heap_override = st.old
+                    try:
+                        old = st.harr(hk, sort)
+                    finally:
+                        st.heap_override = prev
+                    terms.append(cur == old)
+            return k(mk_bool(z3.And(*terms)), st)
         if name == "typeof":
             return self.ev(e.args[0], st, lambda v, s: k(self.type_of(v), s))
         if name == "seq_eq":
@@ -231,7 +245,15 @@ class ContractMixin:
     def inv_text(self, cn):
         return self.reg.invariants.get(cn, [])
 
-    def touch(self, st, obj):
+    def in_scope(self, scope, cn, iname):
+        if scope is None:
+            return True
+        return cn in scope or (cn + "." + iname) in scope
+
+    def base_for(self, st, cn, iname):
+        return st.inv_over.get((cn, iname), st.inv_base)
+
+    def touch(self, st, obj, guard=False):
         if st.in_spec or self.no_inv_assume or not isinstance(obj, Val) or obj.ty[1] is None:
             return
         cn = obj.ty[1]
@@ -242,15 +264,41 @@ class ContractMixin:
         names = [c.name for c in self.repo.mro(ci)] if ci is not None else [cn]
         for n in names:
             for (iname, text, _p) in self.inv_text(n):
-                key = (obj.t.get_id(), n, iname)
+                if not self.in_scope(self.cur_scope, n, iname):
+                    continue
+                base = self.base_for(st, n, iname)
+                key = (obj.t.get_id(), n, iname, id(base))
                 if key in st.touched:
                     continue
                 st.touched = st.touched | {key}
-                base = st.inv_base
                 if base is None:
                     continue
                 f = self.inv_formula(st, n, text, obj, snap=base)
-                st.assume(f)
+                st.assume(z3.Implies(obj.t != NULL, f) if guard else f)
+
+    def assume_invariants_eagerly(self, st):
+        """at a consistent point (entry / after interference): invariants of parameters and own objects"""
+        if self.no_inv_assume:
+            return
+        objs = []
+        for v in self.entry_params.values():
+            if isinstance(v, Val) and v.ty[0] == "ref" and v.ty[1] is not None:
+                objs.append(v)
+        for (o, oc) in st.new_objs:
+            objs.append(Val(REF(oc), o))
+        for v in objs:
+            self.touch(st, v, guard=True)
+            # depth 1: the objects its reference fields point to
+            for n in self.mro_names(v.ty[1]):
+                m = self.reg.models.get(n)
+                if m is None:
+                    continue
+                for f, ty in list(m.fields.items()) + list(m.ghost.items()):
+                    if ty[0] == "ref" and ty[1] is not None and any(self.inv_text(x) for x in self.mro_names(ty[1])):
+                        s2 = st.copy()
+                        s2.heap_override = st.inv_base
+                        t = self.read_field(s2, v.t, n + "." + f, ty).t
+                        self.touch(st, Val(REF(ty[1]), t), guard=True)
 
     def inv_formula(self, st, cn, text, obj, snap=None):
         fr = Frame(self.cur_func, None, spec=True)
@@ -264,9 +312,6 @@ class ContractMixin:
     def all_invariant_hyps(self, st, base):
         """induction hypothesis, instantiated by hand: in the base heap every invariant holds for the witness
         of every class and for the objects its reference fields point to (depth 1)"""
-        cache = getattr(st, "_hyp_cache", None)
-        if cache is not None and cache[0] is base:
-            return cache[1]
         out = []
         seen = set()
 
@@ -277,12 +322,28 @@ class ContractMixin:
             seen.add(key)
             for n in self.mro_names(cn):
                 for (iname, text, _p) in self.inv_text(n):
-                    body = self.inv_formula(st, n, text, Val(REF(cn), term), snap=base)
-                    out.append(z3.Implies(guard, body) if guard is not None else body)
+                    if not self.in_scope(self.cur_scope, n, iname):
+                        continue
+                    bases = [self.base_for(st, n, iname)]
+                    for (hb, hscope) in st.inv_hist:
+                        if self.in_scope(hscope, n, iname) and all(hb is not x for x in bases):
+                            bases.append(hb)
+                    for b in bases:
+                        if b is None:
+                            continue
+                        body = self.inv_formula(st, n, text, Val(REF(cn), term), snap=b)
+                        # the object must have existed at that consistent point
+                        eg = birth(term) <= b.bound
+                        g = eg if guard is None else z3.And(guard, eg)
+                        out.append(z3.Implies(g, body) if g is not None else body)
         for cn in self.classes_with_invariants():
             w = self.witness(cn)
             out += [w != NULL, subclass(cls_of(w), cls_const(cn)), birth(w) <= base.bound]
             add_obj(w, cn, None)
+        # objects this activity created before the base snapshot satisfied their invariants there as well
+        for (o, oc) in st.new_objs:
+            if any(self.inv_text(n) for n in self.mro_names(oc)):
+                add_obj(o, oc, None)
         for cn in self.classes_with_invariants():
             w = self.witness(cn)
             for n in self.mro_names(cn):
@@ -295,7 +356,6 @@ class ContractMixin:
                         s2.heap_override = base
                         t = self.read_field(s2, w, n + "." + f, ty).t
                         add_obj(t, ty[1], z3.And(t != NULL, subclass(cls_of(t), cls_const(ty[1]))))
-        st._hyp_cache = (base, out)
         return out
 
     def mro_names(self, cn):
@@ -311,14 +371,21 @@ class ContractMixin:
             self.witnesses[cn] = w
         return self.witnesses[cn]
 
-    def assert_invariants(self, st, where):
+    def assert_invariants(self, st, where, scope=None):
         """every class invariant holds for (a) an arbitrary pre-existing object (witness) and (b) new objects"""
         if self.no_inv_check:
             return
-        base = st.inv_base
-        all_hyps = self.all_invariant_hyps(st, base) if base is not None else []
+        if scope is None:
+            scope = self.cur_scope
+        elif self.cur_scope is not None:
+            scope = [x for x in scope if x in self.cur_scope or x.split(".")[0] in self.cur_scope]
+        base0 = st.inv_base
+        all_hyps = self.all_invariant_hyps(st, base0) if base0 is not None else []
         for cn in self.classes_with_invariants():
             for (iname, text, props) in self.inv_text(cn):
+                if not self.in_scope(scope, cn, iname):
+                    continue
+                base = self.base_for(st, cn, iname)
                 w = self.witness(cn)
                 wv = Val(REF(cn), w)
                 hyp_guard = [w != NULL, subclass(cls_of(w), cls_const(cn))] + all_hyps
@@ -336,7 +403,7 @@ class ContractMixin:
                     if self.static_subclass_safe(oc, cn):
                         f = self.inv_formula(st, cn, text, Val(REF(oc), o))
                         self.emit(st, "invariant", "inv[%s.%s]@%s(new %s)" % (cn, iname, where, oc), text, f,
-                                  props=props or None)
+                                  props=props or None, extra_hyp=all_hyps)
 
     # ================================================================== contract application (call site)
     def parse_modifies(self, c, st, frame):
@@ -417,10 +484,12 @@ class ContractMixin:
             self.emit(st, "call_pre", "call[%s].requires[%d]" % (info.qualname, i), r, goal)
         suspends = c.suspends is not None and (c.suspends[1] is None or c.suspends[1] > 0)
         if not c.pure and not c.no_invariants:
-            self.assert_invariants(st, where="call " + info.qualname)
+            # a callee that may suspend makes this call a yield point: everything must hold, not just its scope
+            self.assert_invariants(st, where="call " + info.qualname, scope=None if suspends else c.inv_scope)
         if suspends:
             self.at_suspension_for_call(st, info)
         pre = st.snap()
+        st_pre_bases = self.bases_of(st)
         old_time = self.loop_field(st, "time") if suspends else None
         outs = []
         variants = [("normal", None, None)]
@@ -463,7 +532,7 @@ class ContractMixin:
                     for hk, sort in self.heap_keys_for(key):
                         cur = s.harr(hk, sort)
                         fr_arr = fresh("Hm!" + hk, sort)
-                        for ax in self.born_before(fr_arr, s.clock):
+                        for ax in self.born_before(fr_arr, s.clock, hk):
                             s.assume(ax)
                         if obj is None:
                             s.hset(hk, fr_arr)
@@ -473,8 +542,33 @@ class ContractMixin:
                             x = z3.Const("x!mn", RefS)
                             s.assume(z3.ForAll([x], z3.Select(s.heap[hk], x) >= 0))
             if not c.pure and not c.no_invariants:
-                s.inv_base = s.snap()
-                s.touched = frozenset()
+                post = s.snap()
+                if not (kind in ("signal", "close") or suspends):
+                    s.inv_hist = s.inv_hist + ((pre, None if not s.inv_over else [k2[0] + "." + k2[1] for k2 in [] ]),) if False else s.inv_hist
+                    # the state before the call was consistent for everything that was consistent then
+                    s.inv_hist = s.inv_hist + tuple((b, sc) for (b, sc) in self.current_bases(st_pre_bases))
+                if c.inv_scope is None and not (kind in ("signal", "close") or suspends):
+                    # callee re-establishes everything it may have touched; what it did not touch keeps its base
+                    changed = self.changed_keys(pre, s)
+                    for cn2 in self.classes_with_invariants():
+                        for (iname2, text2, _p2) in self.inv_text(cn2):
+                            s.inv_over[(cn2, iname2)] = post if (cn2, iname2) not in s.inv_over or True else s.inv_over[(cn2, iname2)]
+                    s.inv_base = post
+                    s.inv_over = {}
+                elif c.inv_scope is None or kind in ("signal", "close") or suspends:
+                    # interference happened inside the callee: at its last yield point everything held; the callee's
+                    # own segment after that only touched its frame (assumption listed in evidence)
+                    s.inv_base = post
+                    s.inv_over = {}
+                    if c.inv_scope is not None:
+                        self.assumptions_used.add("callee %s (scope %s) leaves invariants outside its scope intact in its first and last segment" % (c.fqn, c.inv_scope))
+                else:
+                    for cn2 in self.classes_with_invariants():
+                        for (iname2, text2, _p2) in self.inv_text(cn2):
+                            if self.in_scope(c.inv_scope, cn2, iname2):
+                                s.inv_over[(cn2, iname2)] = post
+                            elif (cn2, iname2) not in s.inv_over:
+                                s.inv_over[(cn2, iname2)] = s.inv_base
             # --- outcome
             sfr = fr.copy()
             saved_old = s.old
@@ -531,6 +625,34 @@ class ContractMixin:
                 pass
         return outs
 
+    def changed_keys(self, pre, st):
+        return set()
+
+    def bases_of(self, st):
+        """(Snap, scope) pairs at which invariants are known to hold for the current state"""
+        out = []
+        if st.inv_base is not None:
+            over = set(st.inv_over)
+            if not over:
+                out.append((st.inv_base, None))
+            else:
+                scope = []
+                for cn in self.classes_with_invariants():
+                    for (iname, _t, _p) in self.inv_text(cn):
+                        if (cn, iname) not in over or st.inv_over[(cn, iname)] is st.inv_base:
+                            scope.append(cn + "." + iname)
+                out.append((st.inv_base, scope))
+                groups = {}
+                for (cn, iname), b in st.inv_over.items():
+                    if b is not None and b is not st.inv_base:
+                        groups.setdefault(id(b), (b, []))[1].append(cn + "." + iname)
+                for b, sc in groups.values():
+                    out.append((b, sc))
+        return out
+
+    def current_bases(self, bases):
+        return bases
+
     def at_suspension_for_call(self, st, info):
         """calling something that may suspend is a yield point for the caller as well"""
         c = self.cur_contract
@@ -567,6 +689,7 @@ class ContractMixin:
         self.used_contracts = set()
         self.no_inv_assume = c.no_invariants
         self.no_inv_check = c.no_invariants
+        self.cur_scope = c.inv_scope
         self.me_const = z3.Const("me", RefS)
         hs = HeapSpace(self.is_final)
         hs.born_before = self.born_before
@@ -610,6 +733,7 @@ class ContractMixin:
             s.old = s.snap()
             s.inv_base = s.old
             s.last_susp = s.old
+            self.assume_invariants_eagerly(s)
             outs.extend(self.exec_block(info.node.body, s))
         self.path_count += len(outs)
         for o, s in outs:
@@ -726,7 +850,19 @@ class ContractMixin:
     def exit_frame(self, st, extra=None):
         return self.spec_frame(st, extra)
 
+    def check_guarantee(self, c, st, tag):
+        if not c.guarantee:
+            return
+        saved = st.old
+        st.old = st.last_susp or st.old
+        try:
+            for i, cl in enumerate(c.guarantee):
+                self.emit(st, "guarantee", "guarantee[%d]@%s" % (i, tag), cl, self.eval_clause(cl, st))
+        finally:
+            st.old = saved
+
     def check_common_exit(self, c, info, st, tag):
+        self.check_guarantee(c, st, "exit(%s)" % tag)
         for i, cl in enumerate(c.on_exit):
             self.emit(st, "on_exit", "on_exit[%d](%s)" % (i, tag), cl, self.eval_clause(cl, st))
         if not c.no_invariants:
